@@ -354,6 +354,7 @@ Fixpoint prepare (t : ty) (d : cdata) : option cdata :=
     | None => None
     end
   | TArr t', DArr offs d' => option_map (DArr offs) (prepare t' d')
+  | TNullable t', DNullable nulls d' => option_map (DNullable nulls) (prepare t' d')
   | TLowCard t', DLowCard vals _ _ _ =>
     let dict := dedup vals in
     match of_rows t' dict, mapM (fun v => index_of v dict) vals with
@@ -368,7 +369,7 @@ Fixpoint prepare (t : ty) (d : cdata) : option cdata :=
     end
   | TTuple ts, DTuple ds => option_map DTuple (map2o prepare ts ds)
   | TNamed _ t', _ => prepare t' d
-  | _, _ => Some d     (* not Preparable; ColNullable does not forward Prepare *)
+  | _, _ => Some d     (* not Preparable *)
   end.
 
 (* ---- EncodeState / EncodeColumn ---------------------------------------------- *)
@@ -609,7 +610,7 @@ Fixpoint wf_ty (t : ty) : bool :=
   | TFixedStr n => Nat.ltb 0 n && (N.of_nat n <=? 65536)
   | TEnum _ w defs => ((w =? 1)%nat || (w =? 2)%nat) && enum_defs_ok w defs
   | TArr t' => wf_ty t'
-  | TNullable t' => wf_ty t' && no_prepare t'
+  | TNullable t' => wf_ty t'
   | TLowCard t' => wf_ty t' && lc_elem t'
   | TMap k v => wf_ty k && wf_ty v
   | TTuple ts => forallb wf_ty ts
